@@ -115,6 +115,7 @@ def ensure_static_build(timeout=1500):
     BUILD.mkdir(exist_ok=True)
     with open(BUILD / ".lock", "w") as lk:
         fcntl.flock(lk, fcntl.LOCK_EX)
+        subprocess.run([str(VERIF / "bin" / "mkcoqproject")], check=True)
         if not (COQ / "Makefile").exists() or (COQ / "_CoqProject").stat().st_mtime > (COQ / "Makefile").stat().st_mtime:
             subprocess.run(["coq_makefile", "-f", "_CoqProject", "-o", "Makefile"], cwd=COQ, check=True,
                            stdout=subprocess.PIPE, stderr=subprocess.STDOUT)
